@@ -141,6 +141,14 @@ type HookAction func(hc fam.HookCall, ev *HookEvent) error
 // RunSingle opens a fresh environment, runs do() with the fault installed and
 // collects everything the oracles need.
 func RunSingle(o env.Options, f *Fault, action HookAction, do func(e *env.Env) Result) (*SingleRun, error) {
+	if f == nil {
+		return RunMulti(o, nil, action, do)
+	}
+	return RunMulti(o, []*Fault{f}, action, do)
+}
+
+// RunMulti is RunSingle with any number of planned faults.
+func RunMulti(o env.Options, fs []*Fault, action HookAction, do func(e *env.Env) Result) (*SingleRun, error) {
 	e, err := env.Open(o)
 	if err != nil {
 		return nil, err
@@ -150,9 +158,16 @@ func RunSingle(o env.Options, f *Fault, action HookAction, do func(e *env.Env) R
 	if sr.D0, err = e.Dump(); err != nil {
 		return nil, err
 	}
-	if f != nil && f.Drv != nil {
-		e.Drv.SetFaults([]*simdrv.Fault{f.Drv})
+	var drv []*simdrv.Fault
+	var f *Fault // at most one hook fault per run
+	for _, x := range fs {
+		if x.Drv != nil {
+			drv = append(drv, x.Drv)
+		} else if x.Hook != nil {
+			f = x
+		}
 	}
+	e.Drv.SetFaults(drv)
 	counts := map[string]int{}
 	fam.Sink = func(hc fam.HookCall) error {
 		ev := HookEvent{Seq: e.Drv.Tick(), Hook: hc.Hook, Model: hc.Model, Rec: fmt.Sprintf("%p", hc.Rec), rec: hc.Rec}
